@@ -50,6 +50,10 @@ class Fixer:
             parent = subroutine.parent
             while parent is not None:
                 parent.source.invalidate(children=True)
+                # The enclosed procedure lives in the parent's CONTAINS section
+                contains = getattr(parent, 'contains', None)
+                if contains is not None and contains.source is not None:
+                    contains.source.invalidate(children=True)
                 parent = getattr(parent, 'parent', None)
 
         return subroutine
@@ -88,10 +92,10 @@ class Fixer:
             # Depth-first traversal
             if hasattr(ast, 'subroutines') and ast.subroutines is not None:
                 for routine in ast.subroutines:
-                    cls.fix_subroutine(routine, reports, config)
+                    cls.fix(routine, reports, config)
             if hasattr(ast, 'modules') and ast.modules is not None:
                 for module in ast.modules:
-                    cls.fix_module(module, reports, config)
+                    cls.fix(module, reports, config)
 
             cls.fix_sourcefile(ast, reports, config)
 
@@ -100,7 +104,7 @@ class Fixer:
             # Depth-first traversal
             if hasattr(ast, 'subroutines') and ast.subroutines is not None:
                 for routine in ast.subroutines:
-                    cls.fix_subroutine(routine, reports, config)
+                    cls.fix(routine, reports, config)
 
             cls.fix_module(ast, reports, config)
 
